@@ -9,8 +9,17 @@ PUBLIC API and the library's forward chain + error_estimate is evaluated at the 
   ORACLE   every loss ~ 0 (relative to the loss at a perturbed object / probe), strictly larger
            at a perturbed object and at a perturbed probe, batch-fraction-weighted sum of the
            batch losses = full loss, library positions = simulated positions + constant integer.
-  TIE      Z-level model (patch indices, rounding split, centring/fftshift permutations,
-           detector DC position) vs the real arrays.
+  STEPS    per pipeline step, for sampled positions: window anchor, gathered object patches, placed
+           probe, exit wave, detector prediction — library vs reference simulator.
+  TIE      Z-level model (patch indices, rounding split incl. exact ties, centring/fftshift
+           permutations, no_shift origin, detector DC position) vs the real arrays.
+
+Families (round 3): main (even ROI, no_shift; steps below one pixel, large padding, non-square objects),
+odd (odd ROI sizes, no_shift — claimed since fixes/C02-no-shift-odd-roi.diff), half (scan positions on EXACT
+half-integers, simulated in the library frame with the round-half-to-even anchor of C02_round_tie), line
+(single scan line / single pattern), constant and odd-constant (claimed iff the measured precondition holds:
+fitted origin = zero-frequency pixel + injected integer descan), constant-control (never claimed: shows that
+the precondition check discriminates).
 """
 from __future__ import annotations
 
@@ -37,6 +46,9 @@ LOSSES = ["l2_amplitude", "l1_amplitude", "l2_intensity", "l1_intensity"]
 ZERO_RATIO = {"no_shift": {"l2_amplitude": 1e-7, "l2_intensity": 1e-7, "l1_amplitude": 1e-3, "l1_intensity": 1e-3},
               "constant": {"l2_amplitude": 1e-5, "l2_intensity": 1e-5, "l1_amplitude": 1e-2, "l1_intensity": 1e-2}}
 COM_PRECONDITION = 2e-6      # |fitted constant origin - (centre + integer)| in pixels
+# per-step tie (library float32 vs simulator float64): measured maxima over the thorough tier are in the
+# evidence ("step_max"); thresholds leave a factor >= 50.  A convention error in a step gives O(0.1 .. 1).
+STEP_TOL = {"anchor": 0, "patches": 2e-5, "placed_probe": 2e-4, "exit_wave": 5e-4, "detector": 5e-4}
 PERT = 0.15
 I0 = 1000.0
 ENERGIES = [60e3, 80e3, 200e3, 300e3]
@@ -213,6 +225,24 @@ def _symmetric_geometry(r, roi, recip, energy):
     return None
 
 
+ODD_ROIS = [[7, 7], [9, 7], [7, 8], [11, 9], [8, 9], [5, 12], [13, 13], [9, 16]]
+EVEN_ROIS = [[8, 8], [8, 12], [12, 8], [10, 10], [12, 16], [16, 16], [6, 10], [14, 8]]
+BATCH_MODES = ["one", "full", "nondividing", "dividing"]
+CLAIMED_FAMILIES = ("main", "odd", "half", "line", "constant", "odd-constant")
+
+
+def _aperture_and_grid(r, c, n, m, lam):
+    """reciprocal pixel (1/A) such that the Nyquist angle is 30..60 mrad and the aperture can have a radius of
+    >= 1.3 detector pixels on both axes (needed by the higher probe modes) while staying below 0.85 Nyquist"""
+    while True:
+        nyq = [r.uniform(0.030, 0.060) for _ in range(2)]
+        c["recip"] = [nyq[0] / lam / (n // 2), nyq[1] / lam / (m // 2)]
+        semi_lo = 1.3 * max(c["recip"]) * lam
+        semi_hi = 0.85 * min(nyq)
+        if semi_lo < 0.95 * semi_hi:
+            return semi_lo, semi_hi
+
+
 def gen_case(r: random.Random, family: str, quick=True) -> dict:
     """a JSON-serialisable description of one simulated experiment"""
     c = {"family": family, "seed": r.randrange(1 << 30), "com": "no_shift", "descan": [0, 0], "even_obj": False}
@@ -220,14 +250,17 @@ def gen_case(r: random.Random, family: str, quick=True) -> dict:
     c["kind"] = r.choice(["complex", "pure_phase", "potential"])
     c["slices"] = r.choice([1, 1, 2, 3, 4])
     c["modes"] = r.choice([1, 1, 2, 3])
+    c["batch_mode"] = r.choice(BATCH_MODES)
     if family == "odd":
-        c["roi"] = r.choice([[7, 7], [9, 7], [7, 8], [11, 9]])
+        c["roi"] = r.choice(ODD_ROIS)
     elif family == "constant":
-        c["roi"] = r.choice([[8, 8], [16, 16], [8, 16], [16, 8]])
+        c["roi"] = r.choice([[8, 8], [16, 16], [8, 16], [16, 8], [16, 16], [24, 24], [16, 24]])
     elif family == "odd-constant":
-        c["roi"] = r.choice([[7, 7], [9, 9], [7, 9]])
+        c["roi"] = r.choice([[7, 7], [9, 9], [7, 9], [15, 15], [17, 15]])
+    elif family == "half":
+        c["roi"] = r.choice(EVEN_ROIS + ODD_ROIS[:5])
     else:
-        c["roi"] = r.choice([[8, 8], [8, 12], [12, 8], [10, 10], [12, 16], [16, 16], [6, 10], [14, 8]])
+        c["roi"] = r.choice(EVEN_ROIS)
     n, m = c["roi"]
     lam = sim.wavelength_A(c["energy"])
     if family in ("constant", "odd-constant"):
@@ -251,34 +284,59 @@ def gen_case(r: random.Random, family: str, quick=True) -> dict:
                 c["gpts"], c["step_px"], c["pad"] = geo
         else:
             c["gpts"], c["step_px"], c["pad"] = [r.choice([3, 4]), r.choice([3, 4])], [2.0, 2.0], [1, 1]
-        c["descan"] = [r.choice([-1, 0, 1]), r.choice([-1, 0, 1])] if min(n, m) >= 16 else [0, 0]
+        # injected INTEGER descan: the whole pattern stack is displaced by whole detector pixels.  Whether the
+        # fitted origin then is centre + integer (no intensity wraps around the detector edge) is NOT assumed:
+        # it is the precondition the check measures (COM_PRECONDITION) and reports per case
+        dmax = 3 if min(n, m) >= 24 else 2 if min(n, m) >= 15 else 1
+        c["descan"] = [r.randint(-dmax, dmax), r.randint(-dmax, dmax)]
         c["aberr"] = {"C10": r.uniform(-60, 60), "C30": r.choice([0.0, 2e4]), "C12": r.uniform(0, 20), "phi12": r.uniform(0, 3)}
-    else:
-        # reciprocal pixel (1/A): chosen so that the Nyquist angle is 30..60 mrad
-        # and the aperture can have a radius of >= 1.3 detector pixels on both axes (needed by the
-        # higher probe modes) while staying below 0.85 Nyquist
-        while True:
-            nyq = [r.uniform(0.030, 0.060) for _ in range(2)]
-            c["recip"] = [nyq[0] / lam / (n // 2), nyq[1] / lam / (m // 2)]
-            semi_lo = 1.3 * max(c["recip"]) * lam
-            semi_hi = 0.85 * min(nyq)
-            if semi_lo < 0.95 * semi_hi:
-                break
-        gmax = 4 if quick else 6
-        c["gpts"] = [r.randint(2, gmax), r.randint(2, gmax)]
-        steps = []
-        for g in c["gpts"]:
-            while True:
-                st = r.choice([r.choice([1.0, 2.0, 3.0]), r.uniform(0.8, 4.5), r.uniform(0.8, 4.5)])
-                if _no_ties(g, st):
-                    break
-            steps.append(st)
-        c["step_px"] = steps
-        c["pad"] = [r.choice([0, 0, 1, 2, 3, 5, 8]), r.choice([0, 0, 1, 2, 4, 6])]
+    elif family == "half":
+        # exact half-integer scan positions: a real-space pixel of 2**-k A and a step of k + 1/2 pixels make
+        # i * step / pixel exact in the library's float32 arithmetic (verified per case: "exact_ties")
+        pix = [r.choice([0.25, 0.5]), r.choice([0.25, 0.5])]
+        c["recip"] = [1.0 / (n * pix[0]), 1.0 / (m * pix[1])]
+        nyq = [(n // 2) * c["recip"][0] * lam, (m // 2) * c["recip"][1] * lam]
+        semi_lo = 1.3 * max(c["recip"]) * lam
+        semi_hi = max(0.85 * min(nyq), 1.05 * semi_lo)
+        c["gpts"] = [r.randint(2, 4), r.randint(2, 4)]
+        halves = [0.5, 1.5, 2.5, 3.5]
+        c["step_px"] = r.choice([[r.choice(halves), r.choice(halves)], [r.choice(halves), r.choice([1.0, 2.0, 1.25])],
+                                 [r.choice([1.0, 3.0, 0.75]), r.choice(halves)]])
+        c["pad"] = [r.choice([0, 1, 2, 3, 4, 7]), r.choice([0, 1, 2, 5, 6])]
         c["strength"] = r.uniform(0.3, 1.2)
         c["semiangle_mrad"] = r.uniform(semi_lo, semi_hi) * 1e3
         c["aberr"] = {"C10": r.uniform(-80, 80), "C30": r.choice([0.0, 0.0, 1e4, 5e4]), "C12": r.choice([0.0, r.uniform(0, 30)]),
                       "phi12": r.uniform(0, 3)}
+        c["anchor"] = "half_even"
+    else:
+        semi_lo, semi_hi = _aperture_and_grid(r, c, n, m, lam)
+        gmax = 4 if quick else 6
+        if family == "line":
+            # a single scan line (either axis) or a single pattern
+            g = r.randint(2, gmax + 1)
+            c["gpts"] = r.choice([[1, g], [g, 1], [1, g], [g, 1], [1, 1]])
+        else:
+            c["gpts"] = [r.randint(2, gmax), r.randint(2, gmax)]
+        steps = []
+        for g in c["gpts"]:
+            while True:
+                # integer steps, steps of a few pixels, and steps BELOW one pixel
+                st = r.choice([r.choice([1.0, 2.0, 3.0]), r.uniform(0.8, 4.5), r.uniform(0.8, 4.5), r.uniform(0.15, 0.8)])
+                if _no_ties(g, st):
+                    break
+            steps.append(st)
+        c["step_px"] = steps
+        # requested padding incl. large values (the object is then much larger than the raster)
+        c["pad"] = [r.choice([0, 0, 1, 2, 3, 5, 8, 13, 21, 34]), r.choice([0, 0, 1, 2, 4, 6, 17, 40])]
+        c["strength"] = r.uniform(0.3, 1.2)
+        c["semiangle_mrad"] = r.uniform(semi_lo, semi_hi) * 1e3
+        c["aberr"] = {"C10": r.uniform(-80, 80), "C30": r.choice([0.0, 0.0, 1e4, 5e4]), "C12": r.choice([0.0, r.uniform(0, 30)]),
+                      "phi12": r.uniform(0, 3)}
+        if family == "constant-control":
+            # NOT claimed: a generic (non-symmetric) experiment preprocessed with `constant`; its fitted origin is
+            # not centre + integer, the preprocessing interpolates, and the loss at the ground truth is not ~0.
+            # Run to show that the precondition check discriminates (see "constant_precondition" in the evidence)
+            c["com"] = "constant"
     c["thick"] = [round(r.uniform(1.0, 12.0), 3) for _ in range(c["slices"] - 1)]
     w = sorted([r.uniform(0.2, 1.0) for _ in range(c["modes"])], reverse=True)
     w = [w[i] * (0.55 ** i) for i in range(len(w))]
@@ -286,6 +344,27 @@ def gen_case(r: random.Random, family: str, quick=True) -> dict:
     c["orthogonalize"] = r.random() < 0.5
     c["probe_pert"] = "amplitude" if c["even_obj"] else r.choice(["defocus", "amplitude"])
     return c
+
+
+def batch_size_for(c, npos):
+    """the batch size of a case: 1, the full scan, one that does not divide the number of patterns, or a
+    proper divisor (falls back to the nearest available kind for tiny scans)"""
+    mode = c.get("batch_mode")
+    if mode is None:                      # corpus cases written before batch_mode existed
+        rb = random.Random(c["seed"] + 5)
+        return rb.choice([b for b in (1, 2, 3, max(1, npos // 2), max(1, npos - 1), 5) if -(-npos // b) <= 6])
+    rb = random.Random(c["seed"] + 5)
+    nondiv = [b for b in range(2, npos) if npos % b]
+    div = [b for b in range(2, npos) if npos % b == 0]
+    if mode == "one":
+        return 1
+    if mode == "full":
+        return npos
+    if mode == "nondividing" and nondiv:
+        return rb.choice(nondiv)
+    if div:
+        return rb.choice(div)
+    return rb.choice(nondiv) if nondiv else npos
 
 
 def case_key(c):
@@ -327,6 +406,46 @@ def perturb_probe(case, psi_k):
     return psi_k * (1.0 + 4 * PERT * np.sign(kr + 0.01) * np.ones((1, m)))[None]
 
 
+def _rel_mod_phase(a, b):
+    """|| a - z b || / || b || minimised over a global phase z (gauge of a single coherent wave)"""
+    ip = np.vdot(b, a)
+    z = ip / abs(ip) if abs(ip) > 0 else 1.0
+    return float(np.linalg.norm(a - z * b) / max(np.linalg.norm(b), 1e-300))
+
+
+def step_observables(pt, steps, data, offi):
+    """per-step tie between the library's chain and the reference simulator, for the sampled positions: the
+    window anchor, the gathered object patches, the placed (sub-pixel shifted) probe, the exit wave and the
+    detector prediction (against the simulated, not yet preprocessed, pattern).  Waves are compared up to
+    one global phase per mode and position."""
+    idx = sorted(steps)
+    bi = np.asarray(idx)
+    patch_indices, pos, frac, descan = pt.dset.forward(bi, pt.obj_padding_px)
+    shifted = pt.probe_model.forward(frac)
+    patches = pt.obj_model.forward(patch_indices)
+    _pp, overlap = pt.forward_operator(patches, shifted, descan)
+    pred = pt.detector_model.forward(overlap).detach().cpu().numpy().astype(np.float64)
+    pidx = patch_indices.detach().cpu().numpy()
+    shp = np.array([int(x) for x in pt.obj_shape_full[-2:]])
+    shifted = shifted.detach().cpu().numpy()
+    patches = patches.detach().cpu().numpy()
+    overlap = overlap.detach().cpu().numpy()
+    out = {"anchor": 0, "patches": 0.0, "placed_probe": 0.0, "exit_wave": 0.0, "detector": 0.0, "positions": idx}
+    for b, i in enumerate(idx):
+        st = steps[i]
+        # the library's window anchor = the object pixel its patch index (0, 0) points at (the window offset 0)
+        flat = int(pidx[b, 0, 0])
+        lib_anchor = np.array([flat // shp[1], flat % shp[1]])
+        want = (np.asarray(st["anchor"]) + offi) % shp
+        out["anchor"] = max(out["anchor"], int(np.abs(lib_anchor - want).max()))
+        out["patches"] = max(out["patches"], float(np.abs(patches[:, b] - st["windows"]).max()))
+        for mi in range(shifted.shape[0]):
+            out["placed_probe"] = max(out["placed_probe"], _rel_mod_phase(shifted[mi, b], st["placed_probe"][mi]))
+            out["exit_wave"] = max(out["exit_wave"], _rel_mod_phase(overlap[mi, b], st["exit_wave"][mi]))
+        out["detector"] = max(out["detector"], float(np.abs(pred[b] - data[i]).sum() / max(data[i].sum(), 1e-300)))
+    return out
+
+
 def run_case(c: dict, want_arrays=False) -> CaseResult:
     """simulate, feed through the library, evaluate.  Returns observables (JSON-serialisable)."""
     res = CaseResult(case=c, problems=[])
@@ -362,19 +481,40 @@ def run_case(c: dict, want_arrays=False) -> CaseResult:
             res["problems"].append("non-integer raster centre")
         param = np.roll(param, sh, axis=(-2, -1))
         trans = np.roll(trans, sh, axis=(-2, -1))
-    data = sim.simulate(trans, psi_k, simpos, recip, energy, c["thick"])
+    rs = random.Random(c["seed"] + 23)
+    step_idx = sorted(rs.sample(range(npos), min(3, npos)))
+    anchor = c.get("anchor", "half_up")
+    if anchor == "half_even":
+        # exact half-integer positions: the anchor rule matters and round-half-to-even depends on the frame, so
+        # this family is simulated in the LIBRARY frame (object rolled by the constant integer offset, positions
+        # = raster + offset); the library's float32 positions must then BE the exact half-integers intended
+        frame_pos = simpos + offi[None].astype(np.float64)
+        frame_trans = np.roll(trans, tuple(offi), axis=(-2, -1))
+        res["positions_exact"] = bool(np.array_equal(libpos_fwd, frame_pos))
+        res["exact_ties"] = int((np.abs(libpos_fwd - np.floor(libpos_fwd) - 0.5) == 0).sum())
+        # sample the tie positions first for the per-step comparison
+        ties = [i for i in range(npos) if (np.abs(libpos_fwd[i] - np.floor(libpos_fwd[i]) - 0.5) == 0).any()]
+        step_idx = sorted(set(ties[:2] + step_idx[:1]))
+    else:
+        frame_pos, frame_trans = simpos, trans
+    steps = {i: {} for i in step_idx}
+    data = sim.simulate(frame_trans, psi_k, frame_pos, recip, energy, c["thick"], anchor=anchor, steps=steps)
+    trans, simpos_frame = frame_trans, frame_pos
     # is the probe perturbation observable at all?  (small objects with a coarse Fourier lattice and a small
     # aperture give non-overlapping discs: the patterns are then blind to any phase put on the probe.)  The
     # independent simulator decides: relative change of the amplitudes it predicts for the perturbed probe.
-    data_pp = sim.simulate(trans, perturb_probe(c, psi_k), simpos, recip, energy, c["thick"])
+    data_pp = sim.simulate(trans, perturb_probe(c, psi_k), simpos_frame, recip, energy, c["thick"], anchor=anchor)
     res["probe_pert_observable"] = float(((np.sqrt(data_pp) - np.sqrt(data)) ** 2).sum() / max(float(data.sum()), 1e-300))
     sums = data.sum(axis=(-2, -1))
     res["pattern_sum_dev"] = float(np.abs(sums / I0 - 1).max())
+    data0 = data                                      # as simulated: zero frequency at (n // 2, m // 2)
     if c["descan"] != [0, 0]:
         data = np.roll(data, tuple(c["descan"]), axis=(-2, -1))
     com = sim.centre_of_mass(data)
     res["mean_com"] = [com[0], com[1]]
-    res["com_dev"] = [com[0] - (n / 2 + c["descan"][0]), com[1] - (m / 2 + c["descan"][1])]
+    # deviation of the mean centre of mass from (zero-frequency pixel + injected integer descan): the quantity the
+    # `constant` precondition is about (floor(n/2): the detector model's DC pixel, for odd sizes too)
+    res["com_dev"] = [com[0] - (n // 2 + c["descan"][0]), com[1] - (m // 2 + c["descan"][1])]
     # 3. the library on the simulated data, ground truth installed
     gt = np.roll(param, tuple(offi), axis=(-2, -1))
     gt_lib = gt.astype(np.float32) if c["kind"] == "potential" else gt.astype(np.complex64)
@@ -398,6 +538,7 @@ def run_case(c: dict, want_arrays=False) -> CaseResult:
     pobj_lib = np.roll(pobj, tuple(offi), axis=(-2, -1))
     pprb = sim.probe_real_space(perturb_probe(c, psi_k)).astype(np.complex64)
     l_gt, pred = lib_forward_multi(pt, allidx)
+    res["steps"] = step_observables(pt, steps, data0, offi if anchor != "half_even" else np.zeros(2, int))
     with _Saved(pt):
         set_obj(pt, pobj_lib, c["kind"])
         l_po, _ = lib_forward_multi(pt, allidx)
@@ -412,7 +553,7 @@ def run_case(c: dict, want_arrays=False) -> CaseResult:
     rb = random.Random(c["seed"] + 5)
     perm = list(range(npos))
     rb.shuffle(perm)
-    bsz = rb.choice([b for b in (1, 2, 3, max(1, npos // 2), max(1, npos - 1), 5) if -(-npos // b) <= 6])
+    bsz = batch_size_for(c, npos)
     batches = [perm[i:i + bsz] for i in range(0, npos, bsz)]
     with _Saved(pt):
         set_obj(pt, pobj_lib, c["kind"])
@@ -471,6 +612,15 @@ def oracle(res: CaseResult, claim_zero=True):
             if not (v["pert_obj"] > 10 * v["gt"] and (v["pert_probe"] > 10 * v["gt"] or not probe_seen)):
                 bad.append(("loss-not-larger-at-perturbation/%s" % lt,
                             "%s: ground truth %.6g, perturbed object %.6g, perturbed probe %.6g" % (lt, v["gt"], v["pert_obj"], v["pert_probe"])))
+    if claim_zero and "steps" in res:
+        st = res["steps"]
+        for name in ("anchor", "patches", "placed_probe", "exit_wave", "detector"):
+            if not (st[name] <= STEP_TOL[name]):
+                bad.append(("pipeline-step/%s" % name,
+                            "pipeline step `%s`: library and reference simulator differ by %.4g (tolerance %.1g) at scan positions %s "
+                            "[%s, %d slice(s), %d mode(s), roi %s, scan %s step %s px, padding %s -> object %s, %s]" % (
+                                name, st[name], STEP_TOL[name], st["positions"], c["kind"], c["slices"], c["modes"], c["roi"],
+                                c["gpts"], [round(s_, 3) for s_ in c["step_px"]], c["pad"], res["obj_shape"], c["com"])))
     if claim_zero and "norm_path" in res:
         if abs(res["norm_probe_intensity"] / res["mean_intensity"] - 1) > 1e-4:
             bad.append(("probe-normalisation", "after set_initial_probe the total probe intensity is %.8g, the mean diffraction "
@@ -498,6 +648,30 @@ def oracle(res: CaseResult, claim_zero=True):
                         "object gradient of %s at the ground truth %.4g is not small against %.4g at the perturbed object" % (
                             lt, rc["grad_obj"], rc["grad_obj_pert"])))
     return bad
+
+
+def judge(res: CaseResult):
+    """(claimed?, precondition record) — the same decision in run() and replay()"""
+    c = res["case"]
+    claim = c["family"] in CLAIMED_FAMILIES
+    pre = None
+    if c["com"] == "constant":
+        dev = max(abs(res["com_dev"][0]), abs(res["com_dev"][1]))
+        met = dev <= COM_PRECONDITION and not c.get("no_symmetric_geometry")
+        rt = _ratios(res) if "losses" in res else {}
+        pre = {"family": c["family"], "roi": c["roi"], "injected_descan_px": c["descan"], "com_dev_px": float("%.3g" % dev),
+               "fitted_origin": [float("%.7g" % x) for x in res.get("com_fit", [])], "met": bool(met),
+               "l1_amplitude_ratio": float("%.3g" % rt.get("l1_amplitude", float("nan"))),
+               "l2_amplitude_ratio": float("%.3g" % rt.get("l2_amplitude", float("nan")))}
+        claim = claim and met
+    if c["family"] == "half" and not res.get("positions_exact", False):
+        claim = False          # the library's float32 positions are not the intended exact half-integers
+    return claim, pre
+
+
+def restrict_unclaimed(bad):
+    """not claimed: only the harness-independent parts of the oracle apply (positions, batch scaling, mean)"""
+    return [b for b in bad if b[0].startswith(("scan-position", "loss-batch", "mean-diffraction"))]
 
 
 # --------------------------------------------------------------------------------------------
@@ -559,16 +733,25 @@ def correspondence_items(res: CaseResult, rng: random.Random):
     pos = pos.detach().cpu().numpy()
     frac = frac.detach().cpu().numpy()
     pi = patch_indices.detach().cpu().numpy()
-    for p in sorted(rng.sample(range(npos), min(2, npos))):
+    ties = [p for p in range(npos) if (np.abs(pos[p] - np.floor(pos[p]) - 0.5) == 0).any()]
+    chosen = sorted(set(ties[:2])) if ties else sorted(rng.sample(range(npos), min(2, npos)))
+    for p in chosen:
         qr, qc = _frac32(pos[p, 0]), _frac32(pos[p, 1])
         expr = ("(let r0 := round_half_even %s in let c0 := round_half_even %s in "
                 "(r0, c0, patch_indices %s %s %s %s r0 c0, qnd (frac_part %s), qnd (frac_part %s)))" % (
                     cq(qr), cq(qc), cz(h), cz(w), cz(n), cz(m), cq(qr), cq(qc)))
         exp = (int(np.round(pos[p, 0])), int(np.round(pos[p, 1])), pi[p].astype(int).tolist(),
                _frac32(frac[p, 0]), _frac32(frac[p, 1]))
-        items.append(("patch-indices", expr, exp, None, {"position": [float(pos[p, 0]), float(pos[p, 1])], "pattern": int(p)}))
-    # (2) centring permutation of the preprocessing (integer origins only)
+        items.append(("patch-indices", expr, exp, None, {"position": [float(pos[p, 0]), float(pos[p, 1])], "pattern": int(p),
+                                                         "exact_tie": p in ties}))
+    # (2) the origin the `no_shift` preprocessing uses: the model's no_shift_origin (= floor(n/2), every n)
     cf = [float(pt.dset.com_fit[0].mean()), float(pt.dset.com_fit[1].mean())]
+    if c["com"] == "no_shift":
+        cfx = [float(pt.dset.com_fit[0].max()), float(pt.dset.com_fit[0].min()), float(pt.dset.com_fit[1].max()),
+               float(pt.dset.com_fit[1].min())]
+        items.append(("no-shift-origin", "(no_shift_origin %s, no_shift_origin %s)" % (cz(n), cz(m)),
+                      (cfx[0], cfx[1], cfx[2], cfx[3]), "origin", {"roi": [n, m], "com_fit": cf}))
+    # (3) centring permutation of the preprocessing (integer origins only)
     if all(abs(x - round(x)) < 1e-4 for x in cf):
         sr, sc = int(round(cf[0])), int(round(cf[1]))
         expr = "(map (centre_index %s %s) (map Z.of_nat (seq 0 %d)), map (centre_index %s %s) (map Z.of_nat (seq 0 %d)))" % (
@@ -599,6 +782,10 @@ def static_correspondence_items():
 
 def compare_item(item, val):
     label, expr, exp, how, info = item
+    if how == "origin":
+        want = (float(val[0]), float(val[0]), float(val[1]), float(val[1]))
+        return None if tuple(exp) == want else "no_shift origin: model floor(n/2) = %s, library com_fit (max/min per axis) = %s" % (
+            tuple(val), tuple(exp))
     if how == "perm":
         amp, cen = exp
         pr, pc = val
@@ -634,6 +821,10 @@ def _summary(res):
             "padding_requested": c["pad"], "padding_effective": res.get("pad_eff"), "object_shape": res.get("obj_shape"),
             "object_type": c["kind"], "slices": c["slices"], "modes": c["modes"], "com_fit_function": c["com"],
             "injected_descan_px": c["descan"], "position_offset_px": res.get("offset"),
+            "batch_size": res.get("batch", {}).get("l2_amplitude", {}).get("batch"),
+            "exact_half_integer_coordinates": res.get("exact_ties"),
+            "pipeline_step_differences": {k: (float("%.3g" % v) if k != "positions" else v)
+                                          for k, v in res.get("steps", {}).items()} or None,
             "loss_ratio_gt_over_perturbed": {k: float("%.3g" % v) for k, v in _ratios(res).items()} if "losses" in res else None,
             "losses": res.get("losses", {}).get("l2_amplitude")}
 
@@ -659,46 +850,65 @@ def run(ctx: Ctx):
     ctx.hash_sources("diffractive_imaging/ptycho_utils.py", ["fourier_shift_expand", "fourier_translation_operator", "shift_array"])
     ctx.cov["rule"] = (
         "a case = one simulated experiment (object type x slices x modes x ROI x raster grid/step x requested padding x "
-        "energy/aberrations x com_fit_function x injected descan), drawn from ctx.rng; the first 12 main cases cycle through "
-        "every object type, 1..4 slices and 1..3 modes; distinct by (family, roi, scan, type, slices, modes, padding, step, "
-        "com, descan); non-trivial when it has >= 4 patterns and a fractional scan step or > 1 slice or > 1 mode. Families: "
-        "main (even ROI incl. non-square, no_shift), constant (symmetric experiment whose fitted origin is the detector centre "
-        "+ an injected integer, precondition checked to %.0e px), odd / odd-constant (odd ROI: reported, not claimed)." % COM_PRECONDITION)
+        "energy/aberrations x com_fit_function x injected descan x batch size), drawn from ctx.rng; the first 12 main cases "
+        "cycle through every object type, 1..4 slices and 1..3 modes, the first cases of every family through the batch "
+        "sizes (1, whole scan, non-dividing, proper divisor); distinct by (family, roi, scan, type, slices, modes, padding, "
+        "step, com, descan); non-trivial when it has >= 4 patterns and a fractional scan step or > 1 slice or > 1 mode, or "
+        "belongs to the line / half families. Families: main (even ROI incl. non-square, no_shift; scan steps from 0.15 px, "
+        "requested padding up to 40 px), odd (odd / mixed ROI, no_shift), half (scan positions on exact half-integers), line "
+        "(gpts (1,n), (n,1), (1,1)), constant / odd-constant (symmetric experiment + injected integer descan; claimed iff the "
+        "fitted origin is the zero-frequency pixel + integer to %.0e px, measured per case), constant-control (generic "
+        "experiment under `constant`: never claimed)." % COM_PRECONDITION)
     ctx.assumptions += [
         "numpy.fft / torch.fft compute the DFT (oracle contract; both the simulator's propagation/detector and the library use it)",
         "the independent simulator harness/c02_sim.py states the physics convention (transmission exp(+iV), Fresnel propagator "
-        "exp(-i pi lambda dz k^2), probe exp(-i chi), detector zero frequency at floor(N/2)); the global conjugate convention "
-        "gives the same intensities and is not distinguishable",
+        "exp(-i pi lambda dz k^2), probe exp(-i chi), detector zero frequency at floor(N/2) for even AND odd N); the global "
+        "conjugate convention gives the same intensities and is not distinguishable",
         "gauge fixed by the harness, not by the library: lateral origin (ground truth rolled by the constant integer offset "
         "between library and simulated positions), object period and padding (asked from the library by a dry run), global "
         "phase, probe intensity scale (= mean pattern sum)",
-        "float32 pipeline: 'zero' means <= ZERO_RATIO x the loss at a 0.15-rad / 60%-amplitude perturbation (thresholds in the evidence)",
-        "`constant` is claimed only for data whose fitted origin is the detector centre + an integer to 2e-6 px (harness-checked precondition)",
+        "at an EXACT half-integer scan position the periodic-window model depends on which neighbour anchors the window; the "
+        "simulator then uses round-half-to-even in the library frame (IEEE / torch.round; theorem C02_round_tie). Everywhere "
+        "else every nearest-pixel rule agrees",
+        "float32 pipeline: 'zero' means <= ZERO_RATIO x the loss at a 0.15-rad / 60%-amplitude perturbation (thresholds and the "
+        "measured margins per loss type are in the evidence)",
+        "`constant` is claimed only for data whose fitted origin is the zero-frequency pixel + an integer to 2e-6 px "
+        "(precondition measured per case by the harness and listed in the evidence)",
     ]
     ctx.cov["trusted_base"] += [
         "Coq 8.16.1 kernel incl. vm_compute (used to run the Z-level model); no native_compute",
-        "hand-written model coq/model/C02_Model.v tied to /repo by the correspondence on patch indices, rounding split, "
-        "centring permutation, fftfreq order and detector DC position",
+        "hand-written model coq/model/C02_Model.v tied to /repo by the correspondence on patch indices, rounding split "
+        "(incl. exact ties), centring permutation, no_shift origin, fftfreq order and detector DC position",
         "harness/c02_sim.py (independent float64 NumPy reference simulator) and harness/props/C02.py (generators, gauge "
         "fixing, thresholds, Python->Coq printers), harness/common.py",
-        "section hypotheses of coq/lib/DFT.v (root-of-unity laws; shown satisfiable in Q(i), N = 4) and the norm='ortho' "
-        "factor sN with sN*sN = 1/(N1 N2)",
+        "section hypotheses of coq/lib/DFT.v (root-of-unity laws; shown satisfiable in Q(i), N = 4 and N = 1) and the "
+        "norm='ortho' factor sN with sN*sN = 1/(N1 N2); character laws of exp(i .) (shown satisfiable: w4 on (Z,+))",
         "PARTIAL: the end-to-end equality with simulated data is validated per run, not proved",
     ]
-    ctx.cov["thresholds"] = {"zero_ratio": ZERO_RATIO, "perturbation_rad": PERT, "com_precondition_px": COM_PRECONDITION}
+    ctx.cov["thresholds"] = {"zero_ratio": ZERO_RATIO, "perturbation_rad": PERT, "com_precondition_px": COM_PRECONDITION,
+                             "pipeline_step": STEP_TOL}
     ctx.proofs_or_violation()
 
+    import gc
     import torch  # noqa: F401  (import cost ~5 s)
-    torch.set_num_threads(min(4, torch.get_num_threads()))
+    # one thread: the arrays are tiny, and several torch threads on a loaded machine cost 10-20x
+    torch.set_num_threads(1)
     r = ctx.rng
     large_object_indices(ctx, r)
-    plan = ([("main", ctx.budget(28, 400))] + [("constant", ctx.budget(4, 40))] + [("odd", ctx.budget(3, 20))]
-            + [("odd-constant", ctx.budget(2, 12))])
+    plan = [("main", ctx.budget(30, 320)), ("odd", ctx.budget(10, 90)), ("half", ctx.budget(8, 70)),
+            ("line", ctx.budget(6, 40)), ("constant", ctx.budget(8, 60)), ("odd-constant", ctx.budget(4, 24)),
+            ("constant-control", ctx.budget(2, 8))]
+    corr_quota = {"main": ctx.budget(6, 30), "odd": ctx.budget(3, 12), "half": ctx.budget(4, 16), "line": ctx.budget(2, 8),
+                  "constant": ctx.budget(3, 12), "odd-constant": ctx.budget(1, 6)}
     kinds = ["complex", "pure_phase", "potential"]
     max_ratio = {"no_shift": {lt: 0.0 for lt in LOSSES}, "constant": {lt: 0.0 for lt in LOSSES}}
-    odd_report = []
+    step_max = {k: 0.0 for k in STEP_TOL}
+    unclaimed_report = []
+    precond = []
+    half_stats = {"cases": 0, "exact_ties": 0, "positions_not_exact": 0}
     corr_items = []
-    n_unmet = 0
+    corr_used = {}
+
     def stream():
         from ..common import VERIF
         cp = VERIF / "corpus" / "C02" / "cases.json"
@@ -712,6 +922,10 @@ def run(ctx: Ctx):
             ctx.log("family %s: %d cases" % (family, count))
             for k in range(count):
                 c = gen_case(r, family, quick=ctx.quick)
+                if k < 8:
+                    c["batch_mode"] = BATCH_MODES[k % 4]
+                if family == "odd-constant" and k % 2 == 0:
+                    c["descan"] = [0, 0]
                 if family == "main" and k < 12:
                     c["kind"], c["slices"], c["modes"] = kinds[k % 3], 1 + k % 4, 1 + (k // 2) % 3
                     c["thick"] = [round(r.uniform(1.0, 12.0), 3) for _ in range(c["slices"] - 1)]
@@ -719,69 +933,102 @@ def run(ctx: Ctx):
                     c["weights"] = [x / sum(w) for x in w]
                 yield family, c
 
+    frozen = False
     for family, c in stream():
-        if True:
-            keep = len(corr_items) < ctx.budget(24, 120) and family in ("main", "constant")
-            try:
-                res = run_case(c, want_arrays=keep)
-            except Exception as e:  # the library (or the simulator) crashed on a generated experiment
-                import traceback
-                tb = traceback.format_exc()
-                where = "harness" if "c02_sim.py" in tb.splitlines()[-3] else "library"
-                ctx.count(case_key(c), nontrivial=False)
-                ctx.dist("crash/%s" % type(e).__name__)
-                ctx.violation("pipeline-exception/%s/%s" % (where, type(e).__name__),
-                              "the %s raised %s: %s on a simulated experiment [roi %s, scan %s step %s px, padding %s, %s]" % (
-                                  where, type(e).__name__, str(e)[:200], c["roi"], c["gpts"],
-                                  [round(s, 3) for s in c["step_px"]], c["pad"], c["com"]),
-                              {"kind": "case", "case": c, "traceback": tb[-1500:]})
-                continue
-            npos = c["gpts"][0] * c["gpts"][1]
-            frac_step = any(abs(s - round(s)) > 1e-6 for s in c["step_px"])
-            ctx.count(case_key(c), nontrivial=npos >= 4 and (frac_step or c["slices"] > 1 or c["modes"] > 1))
-            ctx.dist("family/%s" % family)
-            ctx.dist("object_type/%s" % c["kind"])
-            ctx.dist("slices/%d" % c["slices"])
-            ctx.dist("modes/%d" % c["modes"])
-            ctx.dist("roi/%s" % ("odd" if (c["roi"][0] % 2 or c["roi"][1] % 2) else "square" if c["roi"][0] == c["roi"][1] else "non-square"))
-            ctx.dist("scan_step/%s" % ("fractional" if frac_step else "integer"))
-            ctx.dist("padding_requested/%s" % ("zero" if c["pad"] == [0, 0] else "nonzero"))
-            ctx.dist("batch_size/%s" % ("divides" if npos % res["batch"]["l2_amplitude"]["batch"] == 0 else "non-dividing"))
-            ctx.dist("orthogonalize_probe/%s" % c["orthogonalize"])
-            ctx.dist("probe_perturbation/%s" % ("observable" if res.get("probe_pert_observable", 1.0) > PROBE_OBSERVABLE
-                                                else "unobservable (clause not judged)"))
-            claim = family in ("main", "constant")
-            if family == "constant":
-                met = max(abs(res["com_dev"][0]), abs(res["com_dev"][1])) <= COM_PRECONDITION and not c.get("no_symmetric_geometry")
-                ctx.dist("constant/precondition_%s" % ("met" if met else "unmet"))
-                if not met:
-                    n_unmet += 1
-                    claim = False
-            bad = oracle(res, claim_zero=claim)
-            if not claim:
-                # not claimed: only the harness-independent parts of the oracle apply (positions, batch scaling)
-                bad = [b for b in bad if b[0].startswith(("scan-position", "loss-batch", "mean-diffraction"))]
-                odd_report.append(_summary(res))
-            else:
-                rt = _ratios(res)
-                for lt in LOSSES:
-                    max_ratio[c["com"]][lt] = max(max_ratio[c["com"]][lt], rt[lt])
-            for key, what in bad:
-                ctx.violation(key, what, {"kind": "case", "case": c, "observed": _summary(res)})
-            if keep and "_pt" in res:
-                for it in correspondence_items(res, r):
-                    corr_items.append((it, c))
-            if family != "odd":
-                ctx.sample(_summary(res), limit=5)
-            for kk in [x for x in res if x.startswith("_")]:
-                del res[kk]
+        keep = corr_used.get(family, 0) < corr_quota.get(family, 0)
+        try:
+            res = run_case(c, want_arrays=keep)
+        except Exception as e:  # the library (or the simulator) crashed on a generated experiment
+            import traceback
+            tb = traceback.format_exc()
+            where = "harness" if "c02_sim.py" in tb.splitlines()[-3] else "library"
+            ctx.count(case_key(c), nontrivial=False)
+            ctx.dist("crash/%s" % type(e).__name__)
+            ctx.violation("pipeline-exception/%s/%s" % (where, type(e).__name__),
+                          "the %s raised %s: %s on a simulated experiment [roi %s, scan %s step %s px, padding %s, %s]" % (
+                              where, type(e).__name__, str(e)[:200], c["roi"], c["gpts"],
+                              [round(s, 3) for s in c["step_px"]], c["pad"], c["com"]),
+                          {"kind": "case", "case": c, "traceback": tb[-1500:]})
+            continue
+        if not frozen:
+            # Ptychography.reconstruct() calls gc.collect() twice per epoch; with torch and the library imported a full
+            # collection costs ~0.2 s.  Freezing the objects that exist now (modules, code) keeps later collections cheap.
+            gc.collect()
+            gc.freeze()
+            frozen = True
+        npos = c["gpts"][0] * c["gpts"][1]
+        frac_step = any(abs(s - round(s)) > 1e-6 for s in c["step_px"])
+        bsz = res["batch"]["l2_amplitude"]["batch"]
+        ctx.count(case_key(c), nontrivial=(npos >= 4 and (frac_step or c["slices"] > 1 or c["modes"] > 1))
+                  or family in ("line", "half"))
+        ctx.dist("family/%s" % family)
+        ctx.dist("object_type/%s" % c["kind"])
+        ctx.dist("slices/%d" % c["slices"])
+        ctx.dist("modes/%d" % c["modes"])
+        ctx.dist("roi/%s" % ("odd" if (c["roi"][0] % 2 or c["roi"][1] % 2) else "square" if c["roi"][0] == c["roi"][1] else "non-square"))
+        ctx.dist("scan_step/%s" % ("below one pixel" if min(c["step_px"]) < 1 and npos > 1 else "fractional" if frac_step else "integer"))
+        ctx.dist("scan_grid/%s" % ("single pattern" if npos == 1 else "single line" if 1 in c["gpts"] else "2-D"))
+        ctx.dist("padding_requested/%s" % ("zero" if c["pad"] == [0, 0] else "large (> 10 px)" if max(c["pad"]) > 10 else "nonzero"))
+        ctx.dist("object/%s" % ("square" if res["obj_shape"][0] == res["obj_shape"][1] else "non-square"))
+        ctx.dist("object_vs_roi/%s" % ("smaller than the ROI on an axis (window wraps onto itself)"
+                                       if (res["obj_shape"][0] < c["roi"][0] or res["obj_shape"][1] < c["roi"][1]) else "holds the ROI"))
+        ctx.dist("batch_size/%s" % ("one" if bsz == 1 and npos > 1 else "whole scan" if bsz == npos else
+                                    "divides" if npos % bsz == 0 else "non-dividing"))
+        ctx.dist("orthogonalize_probe/%s" % c["orthogonalize"])
+        ctx.dist("probe_perturbation/%s" % ("observable" if res.get("probe_pert_observable", 1.0) > PROBE_OBSERVABLE
+                                            else "unobservable (clause not judged)"))
+        claim, pre = judge(res)
+        if pre is not None:
+            precond.append(pre)
+            ctx.dist("constant/%s/precondition_%s" % (family, "met" if pre["met"] else "unmet"))
+            if c["descan"] != [0, 0] and pre["met"]:
+                ctx.dist("constant/injected_integer_descan_claimed/%d px" % max(abs(c["descan"][0]), abs(c["descan"][1])))
+        if family == "half":
+            half_stats["cases"] += 1
+            half_stats["exact_ties"] += res.get("exact_ties", 0)
+            half_stats["positions_not_exact"] += 0 if res.get("positions_exact") else 1
+            ctx.dist("half/%s" % ("exact ties present" if res.get("exact_ties", 0) and res.get("positions_exact") else "no exact tie"))
+        bad = oracle(res, claim_zero=claim)
+        if not claim:
+            bad = restrict_unclaimed(bad)
+            unclaimed_report.append(_summary(res))
+        else:
+            rt = _ratios(res)
+            for lt in LOSSES:
+                max_ratio[c["com"]][lt] = max(max_ratio[c["com"]][lt], rt[lt])
+            for k_ in step_max:
+                step_max[k_] = max(step_max[k_], float(res["steps"][k_]))
+        for key, what in bad:
+            ctx.violation(key, what, {"kind": "case", "case": c, "observed": _summary(res)})
+        if keep and claim and "_pt" in res:
+            corr_used[family] = corr_used.get(family, 0) + 1
+            for it in correspondence_items(res, r):
+                corr_items.append((it, c))
+        if claim:
+            ctx.sample(_summary(res), limit=7)
+        for kk in [x for x in res if x.startswith("_")]:
+            del res[kk]
     ctx.cov["max_ratio"] = {k: {lt: float("%.3g" % v) for lt, v in d.items()} for k, d in max_ratio.items()}
+    # measured margin per loss type = threshold / largest ratio seen this run (the smallest margin is the l1 one)
+    ctx.cov["margin"] = {k: {lt: (float("%.3g" % (ZERO_RATIO[k][lt] / v)) if v > 0 else None) for lt, v in d.items()}
+                         for k, d in max_ratio.items()}
+    ctx.cov["step_max"] = {k: float("%.3g" % v) for k, v in step_max.items()}
+    n_met = sum(1 for p_ in precond if p_["met"])
+    ctx.cov["constant_precondition"] = {
+        "text": "fitted origin (mean centre of mass) = zero-frequency pixel floor(n/2) + injected integer descan, to %.0e px; measured "
+                "on the simulated data before they reach the library. Met -> the case is claimed (all oracle clauses); unmet -> "
+                "reported only. The l1 ratio of the unmet cases grows with the deviation (sub-pixel interpolation of the "
+                "measured amplitudes), which is why the claim needs the precondition." % COM_PRECONDITION,
+        "checked": len(precond), "met": n_met, "unmet": len(precond) - n_met, "cases": precond[:40]}
+    ctx.cov["half_integer_positions"] = half_stats
     ctx.cov["not_claimed_report"] = {
-        "text": "odd ROI sizes under no_shift are half-pixel interpolated by the preprocessing (theorem C02_centre_index): the loss "
-                "at the ground truth is NOT ~0 there; under `constant` with an exactly centred beam they behave like even sizes. "
-                "`constant` cases whose fitted origin is not centre + integer are listed too. None of these count as violations.",
-        "cases": odd_report[:12], "constant_precondition_unmet": n_unmet}
-    ctx.log("oracle: %d cases evaluated; max ratio %s" % (ctx.cov["evaluations"], ctx.cov["max_ratio"]))
+        "text": "`constant` cases whose fitted origin is not zero-frequency pixel + integer (incl. the constant-control family, "
+                "which is built to miss it) and half-integer cases whose library positions are not the exact half-integers. "
+                "None of these count as violations; odd ROI sizes ARE claimed now.",
+        "cases": unclaimed_report[:12]}
+    ctx.log("oracle: %d cases evaluated; max ratio %s; margins %s" % (ctx.cov["evaluations"], ctx.cov["max_ratio"], ctx.cov["margin"]))
+    ctx.log("per-step maxima %s; constant precondition met %d / %d; half-integer %s" % (
+        ctx.cov["step_max"], n_met, len(precond), half_stats))
 
     # ---- correspondence
     items = [(it, None) for it in static_correspondence_items()] + corr_items
@@ -793,7 +1040,7 @@ def run(ctx: Ctx):
     nd = 0
     for (it, c), v in zip(items, vals):
         ctx.cov["traces_validated_against_impl"] += 1
-        ctx.dist("correspondence/%s" % it[0])
+        ctx.dist("correspondence/%s%s" % (it[0], "/exact-tie" if it[4].get("exact_tie") else ""))
         msg = compare_item(it, v)
         if msg:
             nd += 1
@@ -805,6 +1052,8 @@ def run(ctx: Ctx):
 
 
 def replay(ctx: Ctx, path):
+    import torch
+    torch.set_num_threads(1)
     rp = json.loads(open(path).read())
     if rp.get("kind") != "case":
         print("replay of kind %r: re-run ./check C02 (expr: %s)" % (rp.get("kind"), rp.get("expr")))
@@ -817,11 +1066,15 @@ def replay(ctx: Ctx, path):
         traceback.print_exc()
         print("the pipeline raised %s on this experiment: the property fails here" % type(e).__name__)
         return 1
-    claim = c["family"] in ("main", "constant")
+    claim, pre = judge(res)
     bad = oracle(res, claim_zero=claim)
     if not claim:
-        bad = [b for b in bad if b[0].startswith(("scan-position", "loss-batch", "mean-diffraction"))]
+        bad = restrict_unclaimed(bad)
     print(json.dumps(_summary(res), indent=1))
+    if pre is not None:
+        print("  `constant` precondition:", json.dumps(pre))
+    if "steps" in res:
+        print("  per-step differences (library vs simulator):", {k: v for k, v in res["steps"].items()})
     for lt, v in res.get("losses", {}).items():
         print("  %-13s ground truth %.6g   perturbed object %.6g   perturbed probe %.6g" % (lt, v["gt"], v["pert_obj"], v["pert_probe"]))
     for k, wht in bad:
